@@ -24,7 +24,9 @@ Protected == Mutating \cup IndexerOnlyReads
 
 Forms   == {"call", "notification", "batch_first", "batch_mid", "batch_last", "batch_notification",
             "batch_after_invalid", "batch_before_invalid"}      \* a malformed element (1, {"foo":"bar"}) as neighbour
-Headers == {"none", "wronguser", "wrongpass", "malformed", "correct"}
+(* besides the plain wrong ones: an empty value, a proper prefix of the right value ("Basic", and the right value minus *)
+(* its last character) and the right value with a character appended - what a sloppy comparison would let through     *)
+Headers == {"none", "wronguser", "wrongpass", "malformed", "empty", "scheme_only", "truncated", "extended", "correct"}
 AuthSet == {TRUE, FALSE}
 (* the same port answers plain HTTP POSTs and WebSocket upgrades; on a WebSocket connection the header travels *)
 (* with the upgrade request and every frame sent afterwards is judged by it                                    *)
